@@ -174,6 +174,12 @@ def customCatalogue (name : String) (v : Val) : Except Err Val :=
       | .list xs => if xs.length ≤ 5 then .ok v else .error .value
       | v => .ok v
   | "keyerr" => .error .value                    -- fails with KeyError: a rejection like any other
+  | "clamp0" => match v with                     -- a normalising validator whose result may be falsy
+      | .int i => if i < 0 then .ok (.int 0) else .ok v
+      | v => .ok v
+  | "blank" => match v with                      -- a comment becomes the empty string
+      | .str ('#' :: _) => .ok (.str [])
+      | v => .ok v
   | "small" => match v with                      -- at most 2 items / entries
       | .list xs => if xs.length ≤ 2 then .ok v else .error .value
       | .dict kvs => if kvs.length ≤ 2 then .ok v else .error .value
